@@ -46,8 +46,8 @@ type World struct {
 	SSA   map[*packages.Package]*ssa.Package
 	Arch  string
 
-	cgOnce sync.Once
-	cg     *callgraph.Graph
+	cgOnce   sync.Once
+	cg       *callgraph.Graph
 	allFuncs map[*ssa.Function]bool
 }
 
@@ -279,18 +279,19 @@ type Finding struct {
 }
 
 type Report struct {
-	Prop        string
-	w           *World
-	Rules       map[string]*RuleStat
-	Findings    []Finding
-	Samples     []any
-	Funcs       map[string]bool
-	Notes       []string
-	Assumptions []string
-	Trusted     []string
-	Explanation string
-	Exhaustive  bool
-	Extra       map[string]any
+	Prop           string
+	w              *World
+	Rules          map[string]*RuleStat
+	Findings       []Finding
+	Samples        []any
+	Funcs          map[string]bool
+	Notes          []string
+	Assumptions    []string
+	Trusted        []string
+	lastSampleRule string
+	Explanation    string
+	Exhaustive     bool
+	Extra          map[string]any
 }
 
 type RuleStat struct {
@@ -439,24 +440,28 @@ func (r *Report) Emit(tier string, seed int, start time.Time, quiet bool) int {
 		fsample = fsample[:40]
 	}
 	if len(r.Samples) == 0 {
-		r.Samples = append(r.Samples, map[string]any{"note": "no obligation was generated"})
+		if obl > 0 {
+			r.Samples = append(r.Samples, map[string]any{"note": "no sample recorded; see the per-rule counts"})
+		} else {
+			r.Samples = append(r.Samples, map[string]any{"note": "no obligation was generated"})
+		}
 	}
 	cov := map[string]any{
-		"explanation":          r.Explanation,
-		"obligations":          obl,
-		"discharged":           dis,
-		"rule_instances":       sites,
-		"rules":                r.Rules,
-		"functions_analysed":   len(funcs),
-		"functions_sample":     fsample,
-		"samples":              r.Samples,
-		"exhaustive":           r.Exhaustive,
-		"trusted_base":         r.Trusted,
-		"checker_cmd":          "bin/nasverif check " + r.Prop + " --tier " + tier,
-		"notes":                r.Notes,
-		"known_findings":       kn,
-		"violations_found":     viol,
-		"repo":                 repoDir,
+		"explanation":        r.Explanation,
+		"obligations":        obl,
+		"discharged":         dis,
+		"rule_instances":     sites,
+		"rules":              r.Rules,
+		"functions_analysed": len(funcs),
+		"functions_sample":   fsample,
+		"samples":            r.Samples,
+		"exhaustive":         r.Exhaustive,
+		"trusted_base":       r.Trusted,
+		"checker_cmd":        "bin/nasverif check " + r.Prop + " --tier " + tier,
+		"notes":              r.Notes,
+		"known_findings":     kn,
+		"violations_found":   viol,
+		"repo":               repoDir,
 	}
 	for k, v := range r.Extra {
 		cov[k] = v
